@@ -335,19 +335,96 @@ Theorem config_accepts k v :
 Proof.
   intros K NN Tr. destruct k; try discriminate K.
   - exact (acc_log_level v NN Tr).
-  - exact (acc_bool _ v (eq_refl true) Tr).
+  - apply acc_bool; [reflexivity|exact Tr].
   - exact (acc_document_lang v NN Tr).
   - exact (acc_time_format v NN).
   - exact (acc_fps v NN Tr).
   - exact (acc_scc_text_align v NN Tr).
-  - exact (acc_bool _ v (eq_refl true) Tr).
+  - apply acc_bool; [reflexivity|exact Tr].
   - exact (acc_start_tc v NN Tr).
-  - exact (acc_bool _ v (eq_refl true) Tr).
+  - apply acc_bool; [reflexivity|exact Tr].
   - exact (acc_max_row_count v NN Tr).
-  - exact (acc_bool _ v (eq_refl true) Tr).
-  - exact (acc_bool _ v (eq_refl true) Tr).
-  - exact (acc_bool _ v (eq_refl true) Tr).
-  - exact (acc_bool _ v (eq_refl true) Tr).
+  - apply acc_bool; [reflexivity|exact Tr].
+  - apply acc_bool; [reflexivity|exact Tr].
+  - apply acc_bool; [reflexivity|exact Tr].
+  - apply acc_bool; [reflexivity|exact Tr].
   - exact (acc_safe_area v NN Tr).
-  - exact (acc_bool _ v (eq_refl true) Tr).
+  - apply acc_bool; [reflexivity|exact Tr].
+Qed.
+
+(* ------------------------------------------------------------------ colours and font stacks: what is proved *)
+(* values that are not strings are rejected, as documented *)
+Lemma acc_not_string k v :
+  (k = KColor \/ k = KBgColor \/ k = KFontStack) -> v <> JNull -> (forall s, v <> JStr s) ->
+  accepts k v = false /\ documented k v = false.
+Proof.
+  intros K NN NS. destruct v; try contradiction; try (exfalso; eapply NS; reflexivity);
+    destruct K as [->|[->| ->]]; split; reflexivity.
+Qed.
+(* every TTML named colour and every #rrggbb / #rrggbbaa is accepted *)
+Lemma color_named_accepted k s : (k = KColor \/ k = KBgColor) -> one_of s ttml_named_colors = true -> accepts k (JStr s) = true.
+Proof.
+  intros K H. apply one_of_In in H. cbn [List.map In ttml_named_colors] in H.
+  repeat (destruct H as [<-|H]; [destruct K as [->| ->]; vm_compute; reflexivity|]). contradiction.
+Qed.
+Lemma hexval_some c : hexdigit c = true -> exists v, hexval c = Some v.
+Proof.
+  unfold hexdigit, hexval, digit. change is_d with digit. unfold digit. intro H.
+  destruct ((48 <=? c) && (c <=? 57)) eqn:A; [eauto|]. destruct ((65 <=? c) && (c <=? 70)) eqn:B; [eauto|].
+  destruct ((97 <=? c) && (c <=? 102)) eqn:C; [eauto|]. discriminate H.
+Qed.
+Lemma color_hex_accepted k h :
+  (k = KColor \/ k = KBgColor) -> forallb hexdigit h = true -> (length h = 6 \/ length h = 8)%nat ->
+  accepts k (JStr (35 :: h)) = true /\ documented k (JStr (35 :: h)) = true.
+Proof.
+  intros K H L. split.
+  - assert (X : exists c, match_hex (35 :: h) = Some c).
+    { destruct L as [L|L].
+      - destruct h as [|a [|b [|c [|d [|e [|f [|]]]]]]]; try discriminate L. cbn [forallb] in H.
+        repeat (apply andb_true_iff in H as [?H H]).
+        destruct (hexval_some a) as (? & Ea); [assumption|]. destruct (hexval_some b) as (? & Eb); [assumption|].
+        destruct (hexval_some c) as (? & Ec); [assumption|]. destruct (hexval_some d) as (? & Ed); [assumption|].
+        destruct (hexval_some e) as (? & Ee); [assumption|]. destruct (hexval_some f) as (? & Ef); [assumption|].
+        unfold match_hex, hex2. rewrite Ea, Eb, Ec, Ed, Ee, Ef. eauto.
+      - destruct h as [|a [|b [|c [|d [|e [|f [|g [|i [|]]]]]]]]]; try discriminate L. cbn [forallb] in H.
+        repeat (apply andb_true_iff in H as [?H H]).
+        destruct (hexval_some a) as (? & Ea); [assumption|]. destruct (hexval_some b) as (? & Eb); [assumption|].
+        destruct (hexval_some c) as (? & Ec); [assumption|]. destruct (hexval_some d) as (? & Ed); [assumption|].
+        destruct (hexval_some e) as (? & Ee); [assumption|]. destruct (hexval_some f) as (? & Ef); [assumption|].
+        destruct (hexval_some g) as (? & Eg); [assumption|]. destruct (hexval_some i) as (? & Ei); [assumption|].
+        unfold match_hex, hex2. rewrite Ea, Eb, Ec, Ed, Ee, Ef, Eg, Ei. eauto. }
+    destruct X as (c & X).
+    assert (P : exists c', parse_color (35 :: h) = Ok c').
+    { unfold parse_color. destruct (assocT (py_lower (35 :: h)) named_colors); [eauto|]. rewrite X. eauto. }
+    destruct P as (c' & P). destruct K as [->| ->]; unfold accepts, decode, dec_color; rewrite P; reflexivity.
+  - assert (D : color_ok (35 :: h) = true).
+    { unfold color_ok. apply orb_true_iff. left. apply orb_true_iff. left. apply orb_true_iff. right.
+      rewrite H. destruct L as [-> | ->]; reflexivity. }
+    destruct K as [->| ->]; exact D.
+Qed.
+(* a font stack made of one unquoted family name of two or more letters is documented and accepted *)
+Lemma letter_props c : letter c = true ->
+  (c =? 92) = false /\ mem c [39; 34; 44; 32] = false /\ mem c [39; 34; 44] = false /\ (c =? 32) = false /\
+  (c =? 39) || (c =? 34) = false /\ (c =? 44) = false.
+Proof. unfold letter, mem. cbn [existsb]. intro H. repeat split; lia. Qed.
+Lemma fonts_unq_letters r : forallb letter r = true -> fonts_scan FsUnq false r = true.
+Proof.
+  induction r as [|c r IH]; [reflexivity|]. cbn [forallb]. intro H. apply andb_true_iff in H as [L R].
+  destruct (letter_props _ L) as (A & _ & _ & _ & B & C). cbn [fonts_scan]. rewrite C, B, A. exact (IH R).
+Qed.
+Lemma font_single_name s :
+  forallb letter s = true -> (2 <= length s)%nat ->
+  accepts KFontStack (JStr s) = true /\ documented KFontStack (JStr s) = true.
+Proof.
+  intros H L. destruct s as [|a [|b r]]; try (cbn in L; lia). cbn [forallb] in H.
+  apply andb_true_iff in H as [La H]. apply andb_true_iff in H as [Lb Lr].
+  destruct (letter_props _ La) as (A1 & A2 & A3 & A4 & A5 & A6). destruct (letter_props _ Lb) as (B1 & B2 & B3 & B4 & B5 & B6).
+  split.
+  - assert (F : font_any (a :: b :: r) = true).
+    { cbn [font_any]. apply orb_true_iff. left. unfold font_match_at. apply orb_true_iff. right.
+      unfold noquote_match. apply orb_true_iff. right. unfold unit1_plain. rewrite A2. unfold has_unit2, unit_esc, unit2_plain.
+      rewrite B3. destruct r; [reflexivity|]. rewrite B1. reflexivity. }
+    unfold accepts, decode, dec_font_stack. rewrite F. reflexivity.
+  - cbn [documented]. unfold fonts_ok. cbn [fonts_scan]. rewrite A4, A5, A6, A1.
+    apply (fonts_unq_letters (b :: r)). cbn [forallb]. rewrite Lb, Lr. reflexivity.
 Qed.
